@@ -252,11 +252,13 @@ def c06_cases(tier):
     # E7 invalid arguments
     for cls in ('AnyFrom', 'AnyButFrom'):
         out.append((f"{cls}()", ('raise', {'NotEnoughArgumentsException'})))
-        for bad in ("'ab'", "''", "1", "None", "True", "1.5", "['a']", "AnyDigit()", "Pregex('ab')", "Pregex()",
+        for bad in ("('a', 'b')", "()", "('a',)", "{'a'}", "b'a'", "'a', ('b', 'c')", "('a', 'b', 'c'), 'd'",
+                    "'ab'", "''", "1", "None", "True", "1.5", "['a']", "AnyDigit()", "Pregex('ab')", "Pregex()",
                     "'\\\\\\\\'", "Pregex('a') + 'b'", "'a', 'bc'", "'a', 1", "Newline(), 'xy'"):
             out.append((f"{cls}({bad})", ('raise', ITYPE)))
     for cls in ('AnyBetween', 'AnyButBetween'):
-        for bad in ("'ab', 'z'", "'a', 'yz'", "1, 'z'", "'a', None", "'a', True", "AnyDigit(), 'z'", "'', 'z'", "'a', ''",
+        for bad in ("('a', 'b'), 'z'", "'a', ('y', 'z')", "(), 'z'", "'a', ('z',)",
+                    "'ab', 'z'", "'a', 'yz'", "1, 'z'", "'a', None", "'a', True", "AnyDigit(), 'z'", "'', 'z'", "'a', ''",
                     "Pregex('ab'), 'z'", "['a'], 'z'"):
             out.append((f"{cls}({bad})", ('raise', ITYPE)))
     return out
